@@ -653,6 +653,43 @@ open Noulith
 /-! ### surface forms of application (README "operators are functions"; tests/test.rs
 `sections_etc`, `quick_operators`, `function_stuff`) evaluated through the arms above -/
 
+/-- one piece of a call (or list literal) that mixes plain arguments, `...[…]` spreads, `_`
+placeholders and `..._` spread placeholders; the pieces consume the argument tuple left to right -/
+inductive Mix where
+  /-- `k` arguments written plainly: `a, b` -/
+  | lit (k : Nat)
+  /-- `k` arguments inside one spread: `...[a, b]` -/
+  | spread (k : Nat)
+  /-- `_`, filled by one argument of the second call -/
+  | hole
+  /-- `..._`, filled by a list of `k` arguments in the second call -/
+  | spreadHole (k : Nat)
+  deriving DecidableEq, Repr
+
+/-- the first call's argument expressions and the second call's argument values -/
+def mixBuild : List Mix → List Val → List ArgE × List Val
+  | [], _ => ([], [])
+  | .lit k :: ps, args =>
+    ((args.take k).map .val ++ (mixBuild ps (args.drop k)).1, (mixBuild ps (args.drop k)).2)
+  | .spread k :: ps, args =>
+    (.splat (.list (args.take k)) :: (mixBuild ps (args.drop k)).1, (mixBuild ps (args.drop k)).2)
+  | .hole :: ps, args =>
+    (.under :: (mixBuild ps (args.drop 1)).1, (args.take 1) ++ (mixBuild ps (args.drop 1)).2)
+  | .spreadHole k :: ps, args =>
+    (.splatUnder :: (mixBuild ps (args.drop k)).1, .list (args.take k) :: (mixBuild ps (args.drop k)).2)
+
+/-- number of arguments a pattern consumes -/
+def mixSize : List Mix → Nat
+  | [] => 0
+  | .lit k :: ps => k + mixSize ps
+  | .spread k :: ps => k + mixSize ps
+  | .hole :: ps => 1 + mixSize ps
+  | .spreadHole k :: ps => k + mixSize ps
+
+def Mix.isHole : Mix → Bool
+  | .hole | .spreadHole _ => true
+  | _ => false
+
 /-- the forms the property names, for a callable `f` and an argument tuple -/
 inductive Form where
   /-- `f(a, b, …)` -/
@@ -691,6 +728,11 @@ inductive Form where
   | dot
   /-- `f <. a` -/
   | fwdDot
+  /-- a call section mixing `_`, `..._`, plain arguments and `...[…]` spreads in any order, then
+  the call that fills it: `f(_, ...[b, c])(a)`, `f(...[a], _, c)(b)`, `f(..._, c)([a, b])` … -/
+  | secMix (pat : List Mix)
+  /-- the same for a list section: `[_, ...[b, c]](a)` denotes the list `[a, b, c]` -/
+  | listMix (pat : List Mix)
   deriving DecidableEq, Repr
 
 /-- `f(a, _, c)`: the call arguments with an underscore at position `i` -/
@@ -726,6 +768,12 @@ def evalForm (W : World) (form : Form) (f : Func) (args : List Val) : Out Val :=
     (evalList W (rest.map .val)).bind fun l => evalCall W (some fv) [.val a, .splat l]
   | .dot, [a] => chainKnown2 (revApplyBodies W) libSelf a fv
   | .fwdDot, [a] => chainKnown2 (fwdApplyBodies W) libSelf fv a
+  | .secMix pat, _ =>
+    (evalCall W (some fv) (mixBuild pat args).1).bind fun g =>
+      evalCall W (some g) ((mixBuild pat args).2.map .val)
+  | .listMix pat, _ =>
+    (evalList W (mixBuild pat args).1).bind fun g =>
+      evalCall W (some g) ((mixBuild pat args).2.map .val)
   | _, _ => .throw
 
 end Noulith.Apply
